@@ -688,6 +688,12 @@ def extra_cases():
         c.append((FB % words, True, None))
     for text, ok in (('announce ipv4 flow-vpn destination 10.0.0.0/8 discard', False), ('announce ipv4 flow rd 65000:1 destination 10.0.0.0/8 discard', False), ('announce ipv4 flow-vpn rd 65000:1 destination 10.0.0.0/8 discard', True), ('announce ipv4 flow destination 10.0.0.0/8 discard', True), ('announce ipv4 flow destination 2001:db8::/32 discard', False), ('announce ipv6 flow destination 10.0.0.0/8 discard', False), ('announce ipv6 flow next-header tcp destination 10.0.0.0/8 discard', False), ('announce ipv6 flow next-header tcp destination 2001:db8::/32 discard', True), ('announce ipv4 flow protocol tcp destination 10.0.0.0/8 discard', True), ('announce ipv4 flow flow-label 5 destination 10.0.0.0/8 discard', False)):
         c.append((text, ok, None))
+    # RFC 8956 section 6: redirect to a VRF named by an IPv6-address-specific route target: community 0x000d in attribute 25
+    RT6 = bytes.fromhex('000d20010db8000000000000000000000001')
+    c.append((FB.replace('discard', 'redirect "[2001:db8::1]:100"') % 'destination 10.0.0.0/8;', True, _attr_on_wire(25, RT6 + _be(100, 2))))
+    c.append((FB.replace('discard', 'redirect "[2001:db8::1]:65535"') % 'destination 2001:db8::/32;', True, _attr_on_wire(25, RT6 + _be(65535, 2))))
+    c.append((FB.replace('discard', 'redirect "[2001:db8::1]:65536"') % 'destination 2001:db8::/32;', False, None))
+    c.append((FB.replace('discard', 'redirect "[2001:db8::g]:1"') % 'destination 2001:db8::/32;', False, None))
     c.append(('announce ipv4 multicast 224.0.0.0/24 next-hop 192.0.2.1', True, None))
     c.append(('announce ipv6 multicast ff0e::/64 next-hop 2001:db8::1', True, None))
     c.append(('announce vpls rd 65000:1 endpoint 5 base 10702 offset 1 size 8 next-hop self', None, None))
